@@ -248,13 +248,11 @@ def run_case(case):
         ctx = _run_entry(name, seed, rep, cond, on_own=on_own)
     finally:
         events = S.end()
-    t_entry = time.time() - t0
 
     case.params = dict(entry=name, rep=rep, cond=cond, shape=list(ctx.shape), calls=ctx.ncalls,
                        raised=len(ctx.raised), outer_public_calls=len(events), property_reads=ctx.nreads)
     case.digest = core.digest([core.arr_digest(ctx.raw, ctx.raw_err, ctx.raw_mask), name, case.cls])
     ok_calls = 0
-    flagged = set()
     seen = set()
     locs = {}
     nargs = nbytes = 0
@@ -282,7 +280,6 @@ def run_case(case):
                 continue
             for kind, d in kinds.items():
                 key = (ev['entry'], arg, kind)
-                flagged.add(arg)
                 if key in seen:
                     case.nchecks += 1
                     continue
@@ -310,6 +307,9 @@ def run_case(case):
                 continue
             s1 = S.snapshot([(nm, obj)]).get(nm)
             diffs = S.diff(s0, s1) if s1 is not None else [{'kind': 'structure', 'subpath': '', 'detail': {}}]
+            if any(d['kind'] == 'fill_value' for d in diffs):
+                case.note(f"ext_mutation|{name}|{nm.split('#')[0]}|fill_value|fill_value|case_level")
+                diffs = [d for d in diffs if d['kind'] != 'fill_value']
             if not diffs:
                 case.check(True, 'scene_object_unchanged')
             elif flagged_ids & S.reachable_ids(obj):
